@@ -62,7 +62,7 @@ CODE_PROPS = {
     'reject.accepted': ['C10'],
     'reject.state_changed': ['C10'],
     'reject.breaks_close': ['C10'],
-    'reject.visible_after_reopen': ['C10'],
+    'reject.visible_after_reopen': ['C10', 'C03', 'C07'],
     'mrefuse.accepted': ['C10', 'C09'],
     'mrefuse.input_damaged': ['C10'],
     'mrefuse.retry_refused': ['C10'],
@@ -367,6 +367,8 @@ class StoreSim:
             return None
         traj = G.build_traj(spec)
         snap = G.snapshot(traj)
+        if spec.get('cs', 0) % 3 == 0:
+            G.scribble_sources(traj)   # the caller reuses its buffers right after building it
         nbytes = int(traj.nbytes)
         rows = self._rows(sess)
         if sess.kind == 'mem':
@@ -403,6 +405,9 @@ class StoreSim:
         rows.append(snap)
         self._specs(sess).append(dict(spec))
         sess.adds += 1
+        if spec.get('cs', 0) % 3 == 1:
+            G.scribble_sources(traj)   # ... or only after it has been added
+            self.probes['caller_buffers_reused'] += 1
         has_id = spec.get('fid') is not None
         if sess.kind == 'mem':
             sess.mem_bytes += nbytes
@@ -606,8 +611,22 @@ class StoreSim:
 
     def op_lookup(self, op):
         sess = self.sessions.get(op['sess'])
-        if sess is None or sess.kind == 'mem':
-            return None  # never-saved in-memory stores have no id index (not claimed)
+        if sess is None:
+            return None
+        if sess.kind == 'mem':
+            # never-saved in-memory stores have no id index (not claimed): the attempt is made -
+            # it may fail - and only a *wrong* answer counts; what matters is what follows a save
+            try:
+                t = sess.store.get_flight(op['fid'])
+            except Exception as e:  # noqa: BLE001
+                self.probes['obs_mem_lookup_raised'] += 1
+                return f'obs:{type(e).__name__}'
+            ids = {s_['fid']: i for i, s_ in enumerate(sess.mem_specs) if s_.get('fid') is not None}
+            if t is not None:
+                if op['fid'] not in ids:
+                    self.fail('lookup.phantom', f'id {op["fid"]} never added but found', sess, stale=True)
+                self._check_read(sess, ids[op['fid']], t, 'lookup', via='lookup')
+            return 'obs:returned'
         rows = self._rows(sess)
         specs = self._specs(sess)
         ident = None
@@ -787,8 +806,11 @@ class StoreSim:
                     self._check_read(sess, i, traj, served, via='fsck')
                 except OracleFailure as of:
                     if info:
+                        # the damage may stem from the rejected operation (C10); it is a
+                        # content / order violation (C03, C07) all the same
+                        of.v['features']['original_code'] = of.v['code']
+                        of.v['props'] = sorted(set(['C10'] + list(of.v.get('props', []))))
                         of.v['code'] = 'reject.visible_after_reopen'
-                        of.v['props'] = ['C10']
                         of.v['features'].update(info)
                     raise
                 self._note_read(sess, i, served)
@@ -922,12 +944,17 @@ class StoreSim:
         if assoc:
             kw['associated_files'] = [(self.path(a), list(fs)) for a, fs in assoc]
         before = len(sess.mem_rows)
+        target = taken
+        if op.get('kind') == 'parent_is_file':
+            # passes the up-front path checks, fails when the file is actually created
+            target = os.path.join(taken, 'inside.nc')
         try:
-            sess.store.save(taken, **kw)
+            sess.store.save(target, **kw)
         except Exception as e:  # noqa: BLE001
             refused = type(e).__name__
         else:
             self.fail('reject.accepted', 'save() onto an existing file was accepted', sess, kind='save_existing')
+        self.pending_reject[sess.sid] = dict(kind='cache_overflow', mode='mem')
         for a, _fs in assoc:
             if os.path.exists(self.path(a)):
                 self.fail('reject.state_changed', f'refused save() created {a}', sess, kind='save_existing', what='files')
